@@ -7,7 +7,7 @@ from lib import Result, RMODES, OMODES, e_fmt, e_list, e_dy, model_call, run_sha
 RULE = ('histories of up to 10 steps on one object (scalar and array writes by call / set_val / indexed assignment, reset(), interleaved arithmetic with a second operand) '
         'over core-domain formats and all 10 mode pairs, with a recording callback object; values are boundary-biased (both bounds +-1 LSB/4, ties, far outside). After every step the three '
         'flags, the extended_prec entry and the callback log of that step are compared with the model trace (Status.history_run over Store.set_val_real) and with the Spec conditions. '
-        'Complex writes (scalars, lists, complex128 arrays): flags = OR over both components, each callback at most once per write, reset, same write again. Non-trivial = the history raises at least one flag; distinct by full history.')
+        'Complex writes (scalars, lists, complex128 arrays): flags = OR over both components, each callback at most once per write, reset, same write again. Single writes of integers of 54..63 bits into formats with a negative fraction length (scalar, list, int64 array; constructor, call, set_val): flags, codes and callbacks from the exact integers. Non-trivial = the history raises at least one flag; distinct by full history.')
 ASSUMPTIONS = ['histories use real-valued writes; complex writes are checked one write at a time (flags, callbacks, reset)', 'the mechanism that invokes callbacks (hasattr/getattr loop) is exercised, not modelled']
 EV = {0: 'ovf', 1: 'unf', 2: 'inacc', 3: 'change'}
 
@@ -172,11 +172,54 @@ def gen_complex_write(rng):
     return {'s': s, 'nw': nw, 'nf': nf, 'r': rng.choice(RMODES), 'o': rng.choice(OMODES), 'carrier': 'pycomplex' if (k == 1 and rng.random() < 0.5) else rng.choice(['list', 'arr:complex128']),
             'route': rng.choice(['call', 'set_val']), 're': re, 'im': im}
 
+def gen_wideint_write(rng):
+    # integers of 54..63 bits into core formats with a negative fraction length (also around the format bound)
+    s, nw = rng.random() < 0.6, rng.choice([8, 24, 40, 48, 52, rng.randint(4, 52)]); nf = -rng.randint(1, 8)
+    k = rng.choice([1, 1, 2, 3])
+    def one():
+        t = rng.choice([53, 54, 55, 58, 60, 62, nw - nf - 1, nw - nf])
+        t = max(min(t, 62), 53)
+        v = (1 << t) + rng.choice([0, 1, -1, (1 << -nf) - 1, 1 << (-nf - 1), (1 << -nf), rng.randint(0, 1 << (t - 1))])
+        return v * (rng.choice([1, -1]) if s else 1)
+    vals = [one() for _ in range(k)]
+    if k > 1 and rng.random() < 0.5: vals[rng.randrange(k)] = rng.randint(-1000, 1000) << -nf     # (a small representable neighbour)
+    return {'s': s, 'nw': nw, 'nf': nf, 'r': rng.choice(RMODES), 'o': rng.choice(OMODES), 'wide': [int(v) for v in vals],
+            'carrier': 'pyint' if (k == 1 and rng.random() < 0.5) else rng.choice(['list', 'arr:int64']), 'route': rng.choice(['ctor', 'call', 'set_val'])}
+
+def run_wideint_writes(cases, res):
+    """a write of integers of more than 53 bits into a format with a negative fraction length: flags and callbacks from the exact integers"""
+    fx = lib.impl(); import numpy as np
+    pend = []; reqs = []
+    for c in cases:
+        s, nw, nf = c['s'], c['nw'], c['nf']; rec = S.Recorder()
+        val = c['wide'][0] if c['carrier'] == 'pyint' else (list(c['wide']) if c['carrier'] == 'list' else np.array(c['wide'], dtype=np.int64))
+        try:
+            if c['route'] == 'ctor':
+                x = fx.Fxp(val, s, nw, nf, rounding=c['r'], overflow=c['o'], callbacks=[rec])
+            else:
+                x = fx.Fxp(None, s, nw, nf, rounding=c['r'], overflow=c['o'], callbacks=[rec]); rec.log.clear()
+                (x if c['route'] == 'call' else x.set_val)(val)
+            got = (lib.status3(x), list(rec.log), lib.codes_of(x))
+        except Exception as e:
+            res.fail(c, 'C04: a write of wide integers raised %s' % lib.exc_name(e), got=str(e)[:200]); continue
+        pend.append((c, got))
+        reqs.append([4] + e_fmt(s, nw, nf) + [RMODES.index(c['r']), OMODES.index(c['o'])] + e_list([Fraction(v) for v in c['wide']], e_dy))
+    for (c, got), o in zip(pend, model_call(reqs)):
+        rd = Reader(o); codes = rd.lst(rd.z); want = (rd.b(), rd.b(), rd.b())
+        want_ev = [n for n, b in zip(('ovf', 'unf', 'inacc'), want) if b] + ['change']
+        res.count('W:wide-integer-writes', key=repr(c), nontrivial=any(want))
+        res.sample(c)
+        if got[0] != want or got[2] != codes:
+            res.fail(c, 'C04: flags (or codes) after writing integers of more than 53 bits differ from the conditions on the exact integers', expected=(want, codes), got=(got[0], got[2])); continue
+        if got[1] != want_ev and c['route'] != 'ctor':       # (the constructor performs writes of its own before the value)
+            res.fail(c, 'C04: callbacks after writing integers of more than 53 bits differ from the conditions that occurred', expected=want_ev, got=got[1])
+
 def shard(shard, nshards, rng, tier, extra):
     res = Result()
     n = (3000 if tier == 'quick' else 60000) // nshards
     run_batch([gen_history(rng) for _ in range(n)], res)
     run_complex_writes([gen_complex_write(rng) for _ in range((600 if tier == 'quick' else 12000) // nshards)], res)
+    run_wideint_writes([gen_wideint_write(rng) for _ in range((600 if tier == 'quick' else 12000) // nshards)], res)
     return res
 
 def run(seed, tier):
@@ -202,5 +245,6 @@ def shrink(fl):
 def replay(payload):
     res = Result()
     if 're' in payload['case']: run_complex_writes([payload['case']], res)
+    elif 'wide' in payload['case']: run_wideint_writes([payload['case']], res)
     else: run_batch([payload['case']], res)
     return {'holds': not res.failures, 'failures': res.failures}
